@@ -935,6 +935,23 @@ pub fn run_plan<T: El + PartialEq, S: SEl>(plan: &mut Plan, gen: Option<(Profile
                     fail("C13", "reserve-not-honoured", format!("len={} n={} cap={}", b.len(), op.n, b.capacity()));
                 }
             }
+            // C13: a promise made by `reserve` / `with_capacity_in` stays good: no method other than the shrinking ones gives capacity
+            // back (std's `Vec` never does), neither of the receiver nor of the other vector of `append`
+            if matches!(name, "push" | "pop" | "insert" | "remove" | "swap_remove" | "truncate" | "clear" | "extend" | "extend_from_slice" | "extend_copy"
+                | "extend_slices" | "append" | "resize" | "reserve" | "reserve_exact" | "try_reserve" | "try_reserve_exact" | "retain" | "dedup"
+                | "dedup_by" | "dedup_by_key")
+            {
+                for j in [op.v, op.w] {
+                    if j != op.v && name != "append" {
+                        continue;
+                    }
+                    if let (Some(Some(c0)), Some(Some(b))) = (pre_caps.get(j), env.bv.get(j).map(|b| b.as_ref())) {
+                        if b.capacity() < *c0 {
+                            fail("C13", "capacity-given-back", format!("v{} cap {} -> {} (len={})", j, c0, b.capacity(), b.len()));
+                        }
+                    }
+                }
+            }
             // C18 (Vec part): amortised growth — when one of the growing methods has to enlarge the buffer the
             // new capacity is at least twice the old one (RawVec: max(2*cap, required)); reserve_exact is exempt
             if matches!(name, "push" | "insert" | "extend" | "extend_from_slice" | "extend_copy" | "extend_slices" | "append"
